@@ -361,7 +361,15 @@ func checkMain(args []string) int {
 				inconclusive(fmt.Sprintf("harness=%s replay failed to build: %v", hs.Name, err))
 				continue
 			}
-			if !confirms(f, nr) {
+			// findings that depend on Go's map iteration order or on scheduling reproduce only
+			// with some probability per native run: retry before calling the model spurious
+			for try := 0; try < 12 && !confirms(f, nr) && !nr.Timeout; try++ {
+				nr, err = rp.run(full, f.Model, res.Params, 20*time.Second)
+				if err != nil {
+					break
+				}
+			}
+			if err != nil || !confirms(f, nr) {
 				inconclusive(fmt.Sprintf("harness=%s label=%s counterexample did not reproduce natively (spurious; encoding or stub wrong) inputs=%v", hs.Name, f.Label, f.Model))
 				continue
 			}
